@@ -498,7 +498,8 @@ class PureEval(object):
     """Evaluates a contract expression (ast) to a single symbolic value.  `ns` maps names to values
     or to callables; `defs` maps names to expression texts (evaluated lazily in the same ns)."""
 
-    def __init__(self, ns, defs=None, funcs=None, facts=None):
+    def __init__(self, ns, defs=None, funcs=None, facts=None, old_eval=None):
+        self.old_eval = old_eval
         self.ns = ns
         self.defs = defs or {}
         self.funcs = funcs or {}
@@ -794,6 +795,8 @@ class PureEval(object):
         key = 'old(%s)' % ast.unparse(n.args[0])
         if key in self.ns:
             return self.ns[key]
+        if self.old_eval is not None:
+            return self.old_eval(n.args[0])
         raise Unsupported('%s is not available here' % key)
 
     def _slice_bound(self, n, which):
